@@ -151,6 +151,29 @@ def replay_wrapper(model, n=3, cols=LONG, cls="FlowProperties", frame=False, des
                     problems.append(f"m_i = {mi!r} at a table node")
                 if mi < 1 - 1e-9:
                     problems.append(f"m_i = {mi!r} < 1")
+    if not problems and cls == "FlowProperties" and "alpha" not in cols and n >= 4:
+        # a stress table on the model's pressures: diffusivity with a sharp step (an interpolant that overshoots between
+        # nodes leaves the table's positive range there)
+        st = {k: v.copy() for k, v in before.items()}
+        half = n // 2
+        st["compressibility"] = np.array([1e-3] * half + [5e-6] * (n - half))
+        st["viscosity"] = np.full(n, 0.02)
+        if descending:
+            st = {k: (v if k in ("pressure", "pseudopressure", "z-factor") else v[::-1].copy()) for k, v in st.items()}
+        with warnings.catch_warnings():
+            warnings.simplefilter("ignore")
+            with np.errstate(all="ignore"):
+                try:
+                    o2 = getattr(fp, cls)(pd.DataFrame(st) if frame else st, float(np.sort(st["pressure"])[half]))
+                    a2 = np.asarray(o2.pvt_props["alpha"], float)
+                    ms = np.sort(np.asarray(o2.pvt_props["m-scaled"], float))
+                    qs = np.concatenate([(ms[:-1] + ms[1:]) / 2, ms[:-1] + 0.1 * np.diff(ms), ms[:-1] + 0.9 * np.diff(ms)])
+                    vals = np.asarray(o2.alpha(qs), float)
+                    if np.any(~np.isfinite(vals)) or vals.min() < a2.min() * (1 - 1e-9) or vals.max() > a2.max() * (1 + 1e-9):
+                        problems.append(f"step-diffusivity table on the same pressures: lookups between nodes reach [{vals.min()!r}, {vals.max()!r}], "
+                                        f"outside the table's range [{a2.min()!r}, {a2.max()!r}]")
+                except ValueError as ex:
+                    problems.append(f"step-diffusivity table on the same pressures: constructor raised {ex!r}")
     for k, v in before.items():
         if k not in t or not np.array_equal(t[k], v):
             problems.append(f"caller's column {k} modified")
